@@ -209,6 +209,29 @@ impl Prop for P {
             if full { nfull += 1 } else { nlight += 1 }
             res.push(fmt_kvs(&got));
         }
+        // the same ranges on files STREAMED to short-writing / interrupting / block-cutting writers
+        if x == "ok" && ops.len() <= 300 {
+            let ranges2 = ranges.clone();
+            let answer = move |g: &Fst<Vec<u8>>| -> String {
+                let mut out = vec![];
+                for calls in ranges2.iter() {
+                    let mut rb = g.range();
+                    for (k, b) in calls {
+                        rb = match k { 0 => rb.ge(b), 1 => rb.gt(b), 2 => rb.le(b), _ => rb.lt(b) };
+                    }
+                    let mut st = rb.into_stream();
+                    let mut got = vec![];
+                    while let Some((k, v)) = st.next() {
+                        got.push((k.to_vec(), v.value()));
+                    }
+                    out.push(fmt_kvs(&got));
+                }
+                out.join("/")
+            };
+            if let Err(e) = crate::wrap::streamed_files_answer(0, &ops, &bytes, &res.join("/"), &answer) {
+                x = e;
+            }
+        }
         xcount_add("range_map_set_next_loops", nlight + nfull);
         xcount_add("range_map_set_collectors_bytes_values_strs", nfull);
         let s = res.join("/");
